@@ -670,6 +670,8 @@ impl RocksDBStateMachine {
             }
             entries.push((Bytes::copy_from_slice(&k), Bytes::copy_from_slice(&v)));
         }
+        #[cfg(feature = "verif-hooks")]
+        crate::verif_exports::crash_point("sm:scan:after_iter");
 
         let revision = self.last_applied_index.load(Ordering::SeqCst);
         Ok(ScanResult { entries, revision })
@@ -904,6 +906,8 @@ impl StateMachine for RocksDBStateMachine {
         }
 
         db.write_wbwi(&batch).map_err(|e| StorageError::DbError(e.to_string()))?;
+        #[cfg(feature = "verif-hooks")]
+        crate::verif_exports::crash_point("sm:apply:after_write");
 
         if let Some(highest) = highest_index_entry {
             self.update_last_applied(highest);
